@@ -12,7 +12,6 @@
 //!     of such a type are only observed in the program's final step;
 //!   * open findings F37 (alternations only of literals / types / empty tuples, none inside a partial
 //!     pattern), F40 (no same-scope rebinding of a name that was read or bound to a traceable value),
-//!     F41 (no statically impossible type test).
 //!
 //! Generated programs must pass (the generator is built to), and the shrinker only moves through
 //! programs that pass — so a shrunk counterexample never drifts into unspecified territory or into
@@ -245,17 +244,11 @@ impl V {
                 if t.has_fn() || !type_test_decided(t, ty) {
                     return Err("type test not statically decided".into());
                 }
-                if !ty.variants().iter().any(|v| v.sub(t)) {
-                    return Err("statically impossible type test (open finding: nilary function with dead type-test branch)".into());
-                }
                 Ok(())
             }
             Pat::As(t, x) => {
                 if t.has_fn() || !type_test_decided(t, ty) {
                     return Err("type test not statically decided".into());
-                }
-                if !ty.variants().iter().any(|v| v.sub(t)) {
-                    return Err("statically impossible type test (open finding: nilary function with dead type-test branch)".into());
                 }
                 let vs: Vec<Ty> = ty.variants().into_iter().filter(|v| v.sub(t)).collect();
                 let bt = if vs.is_empty() { t.clone() } else { Ty::union(vs) };
@@ -370,8 +363,10 @@ impl V {
         }
         for x in &bound {
             if let Some(old) = env.lookup(x) {
-                if old.prov || old.used.get() {
-                    return Err(format!("rebinding of {x}, which was read or bound to a traceable value (open finding: stale type after rebinding)"));
+                // what remains of F40 until notes/C02-fixes/21 lands: the matched value may have been reached
+                // THROUGH the variable being rebound (`b = "hi" =b b.0`) — approximated by "was read before"
+                if old.used.get() {
+                    return Err(format!("rebinding of {x}, which was read (open finding: a pattern rebinding the variable its value came through)"));
                 }
             }
         }
